@@ -1301,6 +1301,10 @@ func (c *Ctx) RuleIncludeName() *Result {
 			if !c.openNameQualified(call, call.Call.Args[0], fn, 0) {
 				problems = append(problems, "the include name is opened as it is, without the include or exclude directory in front of it and without being known to be absolute: a relative name is looked up in the directory the tool was started from first, and a file of that name there is parsed instead of the include file")
 			}
+			// (a'') a directory of the search that can be the empty string: Join("", name) is the bare name again
+			if why := c.joinedDirMayBeEmpty(call, call.Call.Args[0], fn); why != "" {
+				problems = append(problems, "one of the directories the name is joined to can be the empty string ("+why+"): filepath.Join(\"\", name) is the bare name, so a relative include is looked up in the directory the tool was started from, and a file of that name there is parsed instead of the include file")
+			}
 			var derivedOK func(v ssa.Value, d int) bool
 			derivedOK = func(v ssa.Value, d int) bool {
 				if d > 4 {
@@ -1889,6 +1893,174 @@ func (c *Ctx) openNameQualified(site ssa.Instruction, name ssa.Value, fn *ssa.Fu
 		return n > 0 && depth+1 <= 2 && isOpenWrapper(fn)
 	}
 	return false
+}
+
+// joinedDirMayBeEmpty: the name opened at site is Join(dir, name) and dir can be "": a constant, or an
+// element of a slice that holds one (a literal with "", the result of strings.Split), with no test
+// dir != "" in front of the open. Returns a description, "" when no such source is found.
+func (c *Ctx) joinedDirMayBeEmpty(site ssa.Instruction, name ssa.Value, fn *ssa.Function) string {
+	var join *ssa.Call
+	var find func(v ssa.Value, seen map[ssa.Value]bool)
+	find = func(v ssa.Value, seen map[ssa.Value]bool) {
+		v = stripConv(v)
+		if seen[v] {
+			return
+		}
+		seen[v] = true
+		switch x := v.(type) {
+		case *ssa.Phi:
+			for _, e := range x.Edges {
+				find(e, seen)
+			}
+		case *ssa.Call:
+			f := staticCallee(&x.Call)
+			if isFn(f, "path", "Join") || isFn(f, "path/filepath", "Join") {
+				join = x
+			}
+		}
+	}
+	find(name, map[ssa.Value]bool{})
+	if join == nil || len(join.Call.Args) != 1 {
+		return ""
+	}
+	sl, ok := join.Call.Args[0].(*ssa.Slice)
+	if !ok {
+		return ""
+	}
+	els := variadicElems(sl)
+	if len(els) < 2 {
+		return ""
+	}
+	dir := stripConv(els[0])
+	// a test dir != "" in front of the open
+	nonEmpty := func(cond ssa.Value, val bool) bool {
+		b, ok := cond.(*ssa.BinOp)
+		if !ok {
+			return false
+		}
+		other := b.Y
+		if stripConv(b.X) != dir {
+			if stripConv(b.Y) != dir {
+				return false
+			}
+			other = b.X
+		}
+		if s, isC := constString(other); !isC || s != "" {
+			return false
+		}
+		return (b.Op == token.NEQ && val) || (b.Op == token.EQL && !val)
+	}
+	if c.guardedByEdges(site, nonEmpty) {
+		return ""
+	}
+	var sliceHolds func(v ssa.Value, in *ssa.Function, d int) string
+	var valueMay func(v ssa.Value, in *ssa.Function, d int) string
+	valueMay = func(v ssa.Value, in *ssa.Function, d int) string {
+		v = stripConv(v)
+		if d > 6 {
+			return ""
+		}
+		switch x := v.(type) {
+		case *ssa.Const:
+			if s, ok := constString(x); ok && s == "" {
+				return "the constant \"\""
+			}
+		case *ssa.Phi:
+			for _, e := range x.Edges {
+				if w := valueMay(e, in, d+1); w != "" {
+					return w
+				}
+			}
+		case *ssa.UnOp:
+			if ia, ok := x.X.(*ssa.IndexAddr); ok {
+				return sliceHolds(ia.X, in, d+1)
+			}
+		case *ssa.Extract:
+			// range over a slice value yields (index, element) through Next in some forms
+			if nx, ok := x.Tuple.(*ssa.Next); ok {
+				if rg, ok := nx.Iter.(*ssa.Range); ok {
+					return sliceHolds(rg.X, in, d+1)
+				}
+			}
+		}
+		return ""
+	}
+	sliceHolds = func(v ssa.Value, in *ssa.Function, d int) string {
+		v = stripConv(v)
+		if d > 8 {
+			return ""
+		}
+		switch x := v.(type) {
+		case *ssa.Slice:
+			if al, ok := x.X.(*ssa.Alloc); ok {
+				for _, r := range referrers(al) {
+					if ia, ok := r.(*ssa.IndexAddr); ok {
+						for _, rr := range referrers(ia) {
+							if st, ok := rr.(*ssa.Store); ok && st.Addr == ssa.Value(ia) {
+								if w := valueMay(st.Val, in, d+1); w != "" {
+									return w + " in the list of directories at " + c.P.InstrPos(st)
+								}
+							}
+						}
+					}
+				}
+				return ""
+			}
+			return sliceHolds(x.X, in, d+1)
+		case *ssa.Phi:
+			for _, e := range x.Edges {
+				if w := sliceHolds(e, in, d+1); w != "" {
+					return w
+				}
+			}
+		case *ssa.Parameter:
+			pi := paramIndex(in, x)
+			for _, e := range c.Graph().In[in] {
+				cc := callCommon(e.Site)
+				if cc == nil || staticFn(cc) != in || pi < 0 || pi >= len(cc.Args) {
+					continue
+				}
+				if w := sliceHolds(cc.Args[pi], e.Caller, d+1); w != "" {
+					return w
+				}
+			}
+		case *ssa.UnOp:
+			if fa, ok := x.X.(*ssa.FieldAddr); ok {
+				if f := fieldVarOf(fa); f != nil {
+					stores, _ := c.fieldAccesses(f)
+					for _, st := range stores {
+						if w := sliceHolds(st.Val, st.Parent(), d+1); w != "" {
+							return w
+						}
+					}
+				}
+			}
+		case *ssa.Call:
+			if bi, ok := x.Call.Value.(*ssa.Builtin); ok && bi.Name() == "append" {
+				for _, a := range x.Call.Args {
+					if w := sliceHolds(a, in, d+1); w != "" {
+						return w
+					}
+				}
+				return ""
+			}
+			f := staticCallee(&x.Call)
+			if f != nil && objPkgPath(f) == "strings" && (f.Name() == "Split" || f.Name() == "SplitN" || f.Name() == "SplitAfter") {
+				return "an element of the result of strings." + f.Name() + " at " + c.P.InstrPos(x) + ", which is \"\" for an empty text and between two separators"
+			}
+			if sf := staticFn(&x.Call); sf != nil && c.P.IsRepoFn(sf) && len(sf.Blocks) > 0 {
+				out := ""
+				allInstrs(sf, func(in2 ssa.Instruction) {
+					if r, ok := in2.(*ssa.Return); ok && len(r.Results) > 0 && out == "" {
+						out = sliceHolds(r.Results[0], sf, d+1)
+					}
+				})
+				return out
+			}
+		}
+		return ""
+	}
+	return valueMay(dir, fn, 0)
 }
 
 // isOpenWrapper: a small function that hands its string parameter straight to os.Open.
